@@ -57,6 +57,15 @@ func c11Cells(full bool) []lat {
 			}
 		}
 	}
+	// padding alignment: encryption version 0 pads to the AES block size, so every residue of
+	// the budget modulo 16 is a different case: 16 consecutive buffer sizes
+	for ub := 497; ub <= 512; ub++ {
+		for _, lb := range []string{"", "L"} {
+			for _, pm := range []uint8{4, 5} {
+				out = append(out, lat{Enc: "v0", KeyLen: 16, Comp: false, Label: lb, PeerPMax: pm, IPNames: true, UDPBuf: ub})
+			}
+		}
+	}
 	return out
 }
 
